@@ -100,6 +100,9 @@ def execute(plan, sim):
     import warnings
     warnings.simplefilter("ignore")
     data, delimited, physical = build(plan, sim)
+    # one event per raw read, down to one byte per read: the event cap (a backstop against runaway runs) scales
+    # with the stream (thorough-tier streams reach 300 KB)
+    sim.cap = max(sim.cap, 12 * len(data) + 200_000)
     if not delimited:
         sim.count("nondelimited")
     base = consume(plan, io.BytesIO(data), physical)
